@@ -71,7 +71,29 @@ COMMANDS = [
 def prepare(base, name):
     """a repository with history, a second branch, pending AI work (checkpoints + INITIAL) and a stash"""
     sim = Sim(base, name)
-    sim.init({"a.txt": "a1\na2\na3\n", "b.txt": "b1\nb2\n", "o.txt": "o\n"})
+    sim.init({"a.txt": "a1\na2\na3\n", "b.txt": "b1\nb2\n", "o.txt": "o\n", "p.txt": "p1\np2\np3\np4\n", "q.txt": "q1\n",
+              "h.txt": "h1\n"})
+    # an EARLIER, long finished cherry-pick of an AI commit (content replay: p.txt differs on main), and later commits
+    # with their own notes: nothing a later command does — faulted or not — may touch those notes
+    sim.realgit("checkout", "-q", "-b", "picksrc")
+    sim.checkpoint_human(["p.txt"])
+    sim.write("p.txt", "p1\np2\np3\np4\nAI-p1\nAI-p2\n")
+    sim.checkpoint_ai("s1", ["p.txt"])
+    sim.realgit("add", "-A")
+    sim.git("commit", "-q", "-m", "agent work on picksrc")
+    sim.realgit("checkout", "-q", "main")
+    sim.write("p.txt", "ptop\np1\np2\np3\np4\n")
+    sim.realgit("add", "-A")
+    sim.git("commit", "-q", "-m", "human edit of p on main")
+    sim.git("cherry-pick", "picksrc", env_extra={"GIT_EDITOR": "true"})
+    sim.checkpoint_human(["q.txt"])
+    sim.write("q.txt", "q1\nAI-q\n")
+    sim.checkpoint_ai("s2", ["q.txt"])
+    sim.realgit("add", "-A")
+    sim.git("commit", "-q", "-m", "A2: agent work on q")
+    sim.write("h.txt", "h1\nh2\n")
+    sim.realgit("add", "-A")
+    sim.git("commit", "-q", "-m", "H3: human only")
     sim.realgit("branch", "other")
     sim.realgit("checkout", "-q", "-b", "upstream")
     sim.write("u.txt", "u1\n")
@@ -101,12 +123,24 @@ def clone_state(sim, base, name):
     return s2
 
 
-TRUTH = {"AI-1": "s1", "AI-2": "s1", "AI-b": "s2"}
+TRUTH = {"AI-1": "s1", "AI-2": "s1", "AI-b": "s2", "AI-p1": "s1", "AI-p2": "s1", "AI-q": "s2"}
 
 
-def after_checks(sim):
-    """later commands still work, notes readable, nothing invented"""
+def notes_map(sim):
+    """{annotated object: note blob} of refs/notes/ai"""
+    return {obj: blob for blob, obj in sim.notes_list()}
+
+
+def after_checks(sim, notes_before=None):
+    """later commands still work, notes readable, nothing invented, notes of uninvolved commits untouched"""
     problems = []
+    if notes_before:
+        now = notes_map(sim)
+        for obj, blob in sorted(notes_before.items()):
+            if obj not in now:
+                problems.append(f"the note of the earlier commit {obj[:8]} is gone")
+            elif now[obj] != blob:
+                problems.append(f"the note of the earlier commit {obj[:8]} was rewritten")
     rc, _, err = sim.git("status", "--short")
     if rc != 0:
         problems.append(f"follow-up `git status` fails ({rc}): {err[-150:]}")
@@ -123,7 +157,7 @@ def after_checks(sim):
         if not n["ok"]:
             problems.append(f"note of {obj[:8]} no longer parses: {n['problems'][:2]}")
     hashes = {session_hash("toolx", s): s for s in ("s1", "s2")}
-    for p in ("a.txt", "b.txt", "o.txt", "u.txt"):
+    for p in ("a.txt", "b.txt", "o.txt", "u.txt", "p.txt", "q.txt", "h.txt"):
         txt = sim.file_at("HEAD", p)
         if not txt:
             continue
@@ -177,6 +211,7 @@ def scenario(args):
     try:
         env = {"GIT_EDITOR": "true"}
         before = observe(master)
+        notes_before = notes_map(master)
         # reference: plain git on a copy
         ref = clone_state(master, base, f"ref-{cname}")
         ref.mode = "plain"
@@ -194,11 +229,15 @@ def scenario(args):
         j = judge("no fault", ref_rc, ref_obs, before, rc0, obs0, err0)
         if j:
             fails.append({"what": j, "stderr": err0[-400:]})
+        now0 = notes_map(cnt)
+        for obj, blob in notes_before.items():
+            if now0.get(obj) != blob:
+                fails.append({"what": f"no fault: the note of the earlier commit {obj[:8]} was rewritten or lost"})
         if out0.replace(cnt.repo, "<R>") != ref_out.replace(os.path.join(base, f"ref-{cname}", "repo"), "<R>"):
             fails.append({"what": f"no fault: stdout differs from plain git: {out0[:100]!r} vs {ref_out[:100]!r}"})
         shutil.rmtree(cnt.base, ignore_errors=True)
         ks = list(range(1, n + 1))
-        if opts.get("max_k") and len(ks) > opts["max_k"] and cname not in ("commit", "commit_amend"):
+        if opts.get("max_k") and len(ks) > opts["max_k"] and cname not in ("commit", "commit_amend", "cherry_pick", "rebase"):
             ks = sorted(r.shuffle(ks)[:opts["max_k"]])
         for k in ks:
             for mode in ("FAIL", "KILL"):
@@ -213,7 +252,7 @@ def scenario(args):
                     if j:
                         fails.append({"what": j, "stderr": err[-500:]})
                     else:
-                        pr = after_checks(s)
+                        pr = after_checks(s, notes_before)
                         a_k = [x for x in (call_argv[k - 1] if k - 1 < len(call_argv) else []) if not x.startswith("-") and not os.path.isabs(x)]
                         head_probe = a_k[:2] in (["symbolic-ref", "HEAD"], ["rev-parse", "refs/heads/main"]) or a_k[:1] == ["rev-parse"] and a_k[1:2] and a_k[1].startswith("refs/heads/")
                         if pr and mode == "FAIL" and head_probe and all(x.startswith("invented attribution") for x in pr) \
@@ -243,6 +282,10 @@ def scenario(args):
                         open(p, "wb").write(data[:len(data) // 2])
                     elif how == "garbage":
                         open(p, "wb").write(b"\x00\xff{not json]\n\n---\n" + data[:7])
+                    elif how == "firstline":
+                        # only the first (for the journal: the newest) record is damaged, the rest survives
+                        nl = data.find(b"\n")
+                        open(p, "wb").write(b"\x00{damaged" + (data[nl:] if nl >= 0 else b""))
                     elif how == "delete":
                         os.remove(p)
                     elif how == "bitflip":
@@ -260,10 +303,11 @@ def scenario(args):
                     if j:
                         fails.append({"what": j, "stderr": err[-500:]})
                     else:
-                        pr = [x for x in after_checks(s) if not x.startswith("invented") or how in ("delete", "truncate", "dir")]
+                        pr = [x for x in after_checks(s, notes_before) if not x.startswith("invented") or how in ("delete", "truncate", "dir")]
                         # a corrupted INITIAL / checkpoint file may legitimately LOSE attribution; inventing it is never fine,
                         # but a bit flip inside a stored line number or session id is indistinguishable from a different claim
-                        pr = [x for x in pr if not (x.startswith("invented") and how in ("bitflip", "garbage"))]
+                        pr = [x for x in pr if not (x.startswith("invented") and how in ("bitflip", "garbage", "firstline")
+                                                    and os.path.basename(t) != "rewrite_log")]
                         if pr:
                             fails.append({"what": f"after {how} of {t}: " + "; ".join(pr[:3])})
                 finally:
@@ -291,7 +335,7 @@ def witness_fixed_storage(base):
 def run(ctx):
     quick = ctx.tier == "quick"
     opts = {"max_k": 10 if quick else None, "kill_share": (1, 3) if quick else (1, 1),
-            "corruptions": ("truncate", "garbage", "delete") if quick else ("truncate", "garbage", "delete", "bitflip", "dir")}
+            "corruptions": ("truncate", "garbage", "delete", "firstline") if quick else ("truncate", "garbage", "delete", "firstline", "bitflip", "dir")}
     items = [(ctx.scratch, ctx.seed, c, opts) for c in COMMANDS]
     res = C.parallel_map(scenario, items)
     violations, obligations = [], []
